@@ -979,7 +979,11 @@ where
         // that case it has already done its waking, and nobody would wake us.
         let send_result = match self.writer.cc_upload.try_send(wc) {
           Err(TrySendError::Full(wc)) => {
+            #[cfg(rustdds_verif)]
+            crate::verif_hooks::sched::yield_point("dw.write_full");
             *self.writer.cc_upload_waker.lock().unwrap() = Some(cx.waker().clone());
+            #[cfg(rustdds_verif)]
+            crate::verif_hooks::sched::yield_point("dw.write_waker_stored");
             self.writer.cc_upload.try_send(wc)
           }
           other => other,
@@ -993,8 +997,6 @@ where
             }))
           }
           Err(TrySendError::Full(wc)) => {
-            #[cfg(rustdds_verif)]
-            crate::verif_hooks::sched::yield_point("dw.write_full");
             if Instant::now() < self.timeout_instant {
               // Put our command back
               self.writer_command = Some(wc);
